@@ -39,6 +39,7 @@ func TestVerifFlight(t *testing.T) {
 		loaderRunning := map[int]int{}
 		var mu sync.Mutex
 		val := 0
+		broken := false
 		enter := func(key int) {
 			p := &vcaller{id: len(callers), key: key, release: make(chan [2]int, 1), done: make(chan [2]int, 1)}
 			callers = append(callers, p)
@@ -150,7 +151,14 @@ func TestVerifFlight(t *testing.T) {
 			val++
 			v := val
 			lead.release <- [2]int{oc, v}
-			res := <-lead.done
+			var res [2]int
+			select {
+			case res = <-lead.done:
+			case <-time.After(5 * time.Second):
+				tr.viol(fmt.Sprintf("C13: the leader of key %d never returned after its loader ended with outcome %d", key, oc))
+				broken = true
+				return
+			}
 			tr.op("ran", ss("1", i64(int64(lead.id)), i64(int64(oc)), i64(int64(v))), nil)
 			tr.op("finish", ss("2", i64(int64(lead.id))), ss(i64(int64(res[0])), i64(int64(res[1]))))
 			want := v
@@ -182,7 +190,7 @@ func TestVerifFlight(t *testing.T) {
 			}
 		}
 		nops := 6 + r.intn(vscale(40, 80))
-		for i := 0; i < nops; i++ {
+		for i := 0; i < nops && !broken; i++ {
 			key := r.intn(3)
 			if r.chance(60) {
 				enter(key)
@@ -190,7 +198,7 @@ func TestVerifFlight(t *testing.T) {
 				finish(key)
 			}
 		}
-		for k := 0; k < 3; k++ {
+		for k := 0; k < 3 && !broken; k++ {
 			finish(k)
 		}
 	}
